@@ -31,6 +31,7 @@ CHECKS["C01"] = {
         J("scale", "c01", "TestScale", 6, 60, 4),
         J("history", "c01", "TestPostStartHistory", 800, 20000, 4, steps=30),
         J("known", "c01", "TestKnownStaleEarlyReferenceAfterFailedCreation", None, None),
+        J("sametype", "c01", "TestSameTypeReplacement", None, None),
     ],
     "assumptions": [
         "a *T pointer field cannot hold a substitute object, so the wrapping post-processor only wraps node variants that no pointer-typed field references",
